@@ -236,10 +236,15 @@ def meta_register(chk):
             if dict((kk, v) for kk, v in r[3] if kk).get("flavour") != key:
                 chk.bad("O3.2", uq.qual, "a queue is re-registered under flavour %s instead of its own key" % show(dict((kk, v) for kk, v in r[3] if kk).get("flavour")), node=uq.node, stmt="flush-flavour")
                 ok = False
-            if strip_sites(item[1]) != ("call", ("attr", ("attr", SELF, slots.queues_map(prog)), "items"), (), ()):
+            QATTR = ("attr", SELF, slots.queues_map(prog))
+            # the flushed mapping is the queue attribute itself, or a local it was swapped into ( q, self.Q = self.Q, {} )
+            swapped = [e for e in evs if e[0] == "store" and e[1] == QATTR and strip_sites(e[2]) in (("dict", ()), ("call", ("glob", "ext:builtins.dict"), (), ()))]
+            dom = strip_sites(item[1])
+            if dom != ("call", ("attr", QATTR, "items"), (), ()):
                 chk.bad("O3.1", uq.qual, "the flush ranges over %s" % show(item[1]), node=uq.node, stmt="flush-domain")
                 ok = False
         cleared = [e for e in evs if e[0] == "call" and e[1][1] == ("attr", ("attr", SELF, slots.queues_map(prog)), "clear")]
+        cleared = cleared or [e for e in evs if e[0] == "store" and e[1] == ("attr", SELF, slots.queues_map(prog)) and strip_sites(e[2]) in (("dict", ()), ("call", ("glob", "ext:builtins.dict"), (), ()))]
         if iters and not cleared and not all(any(e[0] == "call" and e[1][1][0] == "attr" and e[1][1][2] == "clear" for e in evs) for _ in [0]):
             chk.bad("O3.1", uq.qual, "flushed payloads stay queued: they are started again on the next run", node=uq.node, stmt="flush-not-cleared")
             ok = False
@@ -447,6 +452,126 @@ def no_eager_formatting(chk):
             )
     if not bad:
         chk.ok(rule, "<registration chain>", "none of the %d functions on the registration chain formats the payload eagerly" % len(fns), node=fns[0].node)
+
+
+def mode_switch_atomic(chk):
+    """O3.10: the decision "queue this payload" (runner lookup fails, runtime not running -> append to the queue) is atomic
+    with the runtime's switch to direct registration (runners filled -> running.set() -> queue flushed).  Without a common
+    lock a submitter that is preempted between its check and its append queues the payload AFTER the flush: the payload
+    is lost for this run (or, preempted between lookup and check, is refused as "unknown runner")."""
+    prog = chk.program
+    rule = "O3.10"
+    from . import c11
+
+    cls = prog.cls(META)
+    reg = prog.method(META, "register_payload")
+    R, Q = slots.runners_map(prog), slots.queues_map(prog)
+    sup = slots.supervisor(prog)
+    E = None
+    for n in ast.walk(sup.node):
+        if isinstance(n, ast.Call) and isinstance(n.func, ast.Attribute) and n.func.attr == "set" and util.dotted(n.func.value or n) and (util.dotted(n.func.value) or "").startswith("self."):
+            E = util.dotted(n.func.value).split(".", 1)[1]
+    if E is None:
+        chk.undecided(rule, sup.qual, "the supervising coroutine reports no running event", node=sup.node)
+        return
+
+    def accesses(fnode):
+        """(kind, node) for the accesses that take part in the protocol"""
+        out = []
+        for n in ast.walk(fnode):
+            d = util.dotted(n) if isinstance(n, ast.Attribute) else None
+            if d == "self." + R:
+                out.append(("runners", n))
+            elif d == "self." + Q:
+                out.append(("queues", n))
+            elif d == "self." + E:
+                out.append(("running", n))
+        return out
+
+    # the decider really has the check-then-queue path
+    KEYERR = exc_value("ext:builtins.KeyError", "no runner yet")
+
+    def sub_hook(it, path, base, idx, node):
+        if base == ("attr", SELF, R):
+            return [("raise", KEYERR)]
+        return None
+
+    def decide(it, path, term):
+        if term[0] == "call" and term[1] == ("attr", ("attr", SELF, E), "is_set"):
+            return False
+        if term[0] == "cmp" and term[1] == "in" and term[3] == ("attr", SELF, R):
+            return False
+        return None
+
+    queued = False
+    for o in Interp(prog, reg, sub_hook=sub_hook, decide=decide, unroll=1).run():
+        chk.count()
+        if o.kind in ("normal", "return") and any(e[0] == "call" and ("attr", SELF, Q) in list(subterms(e[1][1])) for e in o.path.events):
+            queued = True
+    if not queued:
+        chk.undecided(rule, reg.qual, "register_payload has no path that queues a payload when the runner lookup fails and the runtime is not running", node=reg.node, aux=True)
+        return
+    dec = {k for k, _n in accesses(reg.node)}
+    # the switch: own coroutines of the supervisor's side that fill the runners / set running / flush the queue
+    switchers = {}
+    for fis in cls.methods.values():
+        for f in fis:
+            if f is reg or not f.is_async:
+                continue
+            acc = accesses(f.node)
+            writes = set()
+            for k, n in acc:
+                par = util.parents_map(f.node)
+                up = par.get(id(n))
+                if k == "running" and isinstance(up, ast.Attribute) and up.attr in ("set", "clear"):
+                    writes.add("running." + up.attr)
+                if k == "queues" and (isinstance(up, ast.Attribute) and up.attr in ("clear", "items", "pop", "values") or isinstance(n.ctx, ast.Store)):
+                    writes.add("queues-flush")
+                if k == "runners" and (isinstance(n.ctx, ast.Store) or isinstance(up, ast.Subscript) and isinstance(up.ctx, ast.Store)):
+                    writes.add("runners-fill")
+            if writes:
+                switchers[f] = writes
+    if not ({"running.set", "queues-flush"} <= set().union(*switchers.values()) if switchers else False):
+        chk.undecided(rule, cls.qual, "the switch to direct registration (running.set, queue flush) was not found", node=cls.node, aux=True)
+        return
+    # a common lock around both sides?
+    locks, secs = c11.lock_sections(prog, [cls.module])
+    by_fn = {}
+    for lk, _m, fnode, body in secs:
+        by_fn.setdefault(fnode.name, []).append((lk, body))
+
+    def covered(fnode, lk, only=None):
+        """the protocol accesses of fnode (all, or those of the kinds in `only`) lie inside with-sections of lock lk"""
+        inside = set()
+        for l2, body in by_fn.get(fnode.name, []):
+            if l2 == lk:
+                for st in body:
+                    inside |= {id(x) for x in ast.walk(st)}
+        par = util.parents_map(fnode)
+        todo = []
+        for k, n in accesses(fnode):
+            up = par.get(id(n))
+            tag = k
+            if k == "running" and isinstance(up, ast.Attribute):
+                tag = "running." + up.attr
+            if only is None or tag in only or (k == "queues" and "queues" in only):
+                todo.append(n)
+        return all(id(n) in inside for n in todo)
+
+    good = [lk for lk in locks if covered(reg.node, lk) and all(covered(f.node, lk, only={"running.set", "queues"}) for f, w in switchers.items() if w & {"running.set", "queues-flush"})]
+    chk.count(len(switchers) + 1)
+    if good:
+        chk.ok(rule, reg.qual, "the queue-or-register decision and the switch to direct registration are both made under the lock %s" % good[0], node=reg.node)
+        return
+    chk.bad(
+        rule,
+        reg.qual,
+        "register_payload decides to queue (lookup in self.%s fails, self.%s is not set, append to self.%s) without a lock shared with the switch to direct registration (%s): a submitter preempted between the check and the append queues its payload after the queue was flushed -- the payload is not started in this run -- and one preempted between the lookup and the check is refused with RuntimeError('unknown runner')"
+        % (R, E, Q, ", ".join("%s: %s" % (f.name, "/".join(sorted(w))) for f, w in sorted(switchers.items(), key=lambda x: x[0].name))),
+        node=reg.node,
+        stmt="queue-decision-not-atomic",
+        input="history: T: runners[flavour] -> KeyError; T: running.is_set() -> False; runtime: launch, running.set(), flush queue; T: queue.extend(payloads)",
+    )
 
 
 def weak_registry(chk):
@@ -762,5 +887,6 @@ def run(chk):
     chk.guard("O3.3", SERVICE_RUNNER + ".adopt", adopt_rules, chk)
     chk.guard("O3.4", "<registration chain>", no_eager_formatting, chk)
     chk.guard("O3.9", SERVICE_UNIT, weak_registry, chk)
+    chk.guard("O3.10", META, mode_switch_atomic, chk)
     chk.guard("O3.6", SERVICE_UNIT, service_typestate, chk)
     chk.guard("O3.7", SERVICE_RUNNER, sweep_rules, chk)
